@@ -12,26 +12,6 @@ namespace {
 
 // scenario: object A (defined, good) lives through the fault; the window works on object B:
 //   window kinds: 0 create only | 1 create+define(callbacks) | 2 create+define(text) | 3 define+parse (B created and defined before the window: kind 3 = parse only)
-// one symbol gets a name of several hundred characters (the first object put on a name stack is larger than its segment)
-static void elongate(Choices &c, GramDef &gd) {
-  if (gd.raw.rules.empty()) return;
-  std::string from = (c.flip() || gd.raw.terms.empty()) ? gd.raw.rules[0].lhs : gd.raw.terms[0].first;
-  if (from.empty() || !(isalpha((unsigned char)from[0]) || from[0] == '_')) return; // character constants keep their spelling
-  std::string to = from + std::string(400 * c.range(1, 4), 'q');
-  for (auto &t : gd.raw.terms) if (t.first == from) t.first = to;
-  for (auto &r : gd.raw.rules) { if (r.lhs == from) r.lhs = to; for (auto &x : r.rhs) if (x == from) x = to; }
-  if (gd.use_text) {
-    std::string out; const std::string &t = gd.text;
-    auto idch = [](char ch) { return isalnum((unsigned char)ch) || ch == '_'; };
-    for (size_t i = 0; i < t.size();) {
-      if (t[i] == '\'') { size_t j = std::min(t.size(), i + 3); out += t.substr(i, j - i); i = j; continue; }
-      if (idch(t[i])) { size_t j = i; while (j < t.size() && idch(t[j])) j++; std::string w = t.substr(i, j - i); out += (w == from ? to : w); i = j; continue; }
-      out += t[i++];
-    }
-    gd.text = out;
-  }
-}
-
 Case genC17(Choices &c, int tier) {
   Case cs;
   cs.prop = "C17";
